@@ -7,7 +7,7 @@ from core import Case
 from pyerr import canon_call
 
 PROP = 'C11'
-COQ_TARGETS = ['theories/SsmFacts.vo', 'theories/SsmC11.vo', 'theories/SsmC11s.vo', 'theories/SsmC11a.vo', 'theories/IocbFacts.vo']
+COQ_TARGETS = ['theories/SsmFacts.vo', 'theories/SsmC11.vo', 'theories/SsmC11s.vo', 'theories/SsmC11a.vo', 'theories/SsmC11p.vo', 'theories/IocbFacts.vo']
 COQ_IMPORTS = 'From Bac Require Import Base Iocb Ssm SsmWorld.'
 RULE = ('cases: 1..40 concurrent requests from one or two clients over 1..4 servers, application-chosen invoke ids colliding across '
         'peers (and within one peer: refused), answers delayed up to 4 s so that retransmissions meet a transaction still being '
